@@ -448,20 +448,19 @@ struct SdArray : Profile {
                     strided = false;
                     for (int d = 0; d < m.rank; d++)
                         strided |= stride[d] > 1 && count[d] > 1;
-                    // known finding C03-nofill-partial-record: with fill mode off only whole records go to an
-                    // unlimited dataset
-                    if (wr && s.nofill && m.unlimited && p.knob("unguard_nofill_partial", 0) == 0)
-                        for (int d = 1; d < m.rank; d++) {
-                            start[d]  = 0;
-                            stride[d] = 1;
-                            count[d]  = m.dims[d];
-                            if (oor > 0 && (oor - 1) % m.rank == d)
-                                inrange = true; // the out-of-range request was on a dimension just normalised
-                        }
+                    // known finding C03-nofill-refused-write-extent: with fill mode off, a write to an unlimited dataset that
+                    // is refused for reaching beyond an inner dimension has already counted the new records (nothing is
+                    // stored for them, after a reopen they are gone).  Such requests are not issued.  (Partly written
+                    // last records used to be guarded as well: repaired, findings/fixed.)
+                    bool guarded = wr && s.nofill && m.unlimited && !inrange && p.knob("unguard_nofill_refused_extent", 0) == 0;
+                    if (wr && s.nofill && m.unlimited && inrange)
+                        for (int d = 1; d < m.rank; d++)
+                            if (count[d] * stride[d] < m.dims[d])
+                                ctx.probe("nofill-partial-record");
                     size_t n = 1;
                     for (int d = 0; d < m.rank; d++)
                         n *= (size_t)count[d];
-                    if (n > 20000)
+                    if (n > 20000 || guarded)
                         done = false;
                     else if (wr) {
                         uint64_t             ds = (uint64_t)o.arg(2 + 3 * MAXRANK);
